@@ -588,6 +588,64 @@ def items_for(tier, seed):
     return items
 
 
+def unit_ptrnet(item):
+    """The pointer network does not go through process_logits: its decoder masks and normalises its own pointer logits
+    and hands log-probabilities to the shared `decode_logprobs` (greedy / sampling).  For the default flags and the
+    documented non-default pair (mask_inner=False, mask_logits=True), on 4-node TSP instances and for EVERY answer of
+    the sampler: the emitted tour is feasible (a permutation), greedy emits a feasible tour, and the probabilities of
+    all tours the sampler can emit sum to one (no mass leaks to masked nodes)."""
+    import math
+
+    import torch
+
+    from ..policies import make
+    from ..registry import ALL_SPECS
+    from ..seam import ExplorationCapped, Seam, explore
+
+    _, key, seed = item
+    spec = ALL_SPECS["tsp"]
+    p = Partial()
+    insts = [x for x in spec.instances("quick", seed) if len(x[1]["locs"]) == 4][:2]
+    for iid, inst in insts:
+        env = spec.env(inst)
+        td0 = spec.td(inst)
+        pol = make(key, env, 0)
+        rec = dict(kind="ptrnet", policy=key, instance_id=iid)
+
+        def run(seam):
+            with torch.no_grad(), seam.active():
+                o = pol(env.reset(td0.clone()), env, phase="test", decode_type="sampling")
+            return o["actions"][0].tolist(), float(o["log_likelihood"][0])
+
+        tot, n = 0.0, 0
+        try:
+            for ch, (acts, ll), seam in explore(run, max_dev=None, limit=3000, float_patterns=False):
+                n += 1
+                p.add(states=1, transitions=len(acts), evaluations=1)
+                if sorted(acts) != list(range(len(acts))):
+                    p.violation(dict(property=PID, env="ptrnet_decoder", config=key, observable="infeasible_action", trigger="sampling"), rec, f"{key} on tsp {iid}: sampling emitted {acts}, not a permutation of the nodes")
+                    break
+                tot += math.exp(ll)
+            else:
+                p.outcome(f"{key}|{round(tot, 3)}")
+                if abs(tot - 1.0) > 1e-3:
+                    p.violation(dict(property=PID, env="ptrnet_decoder", config=key, observable="normalisation", trigger="sampling"), rec, f"{key} on tsp {iid}: the {n} tours the sampler can emit carry total probability {tot:.6f}, expected 1 (mass on masked nodes)")
+        except ExplorationCapped:
+            p.add(caps_hit=1)
+        with torch.no_grad(), Seam().active():
+            o = pol(env.reset(td0.clone()), env, phase="test", decode_type="greedy")
+        acts = o["actions"][0].tolist()
+        p.add(states=1, evaluations=1)
+        if sorted(acts) != list(range(len(acts))):
+            p.violation(dict(property=PID, env="ptrnet_decoder", config=key, observable="infeasible_action", trigger="greedy"), rec, f"{key} on tsp {iid}: greedy emitted {acts}, not a permutation of the nodes")
+    p.sample(dict(part="pointer-network decoder", flags=key), cap=1)
+    return p
+
+
+def dispatch(item):
+    return unit_ptrnet(item) if item and item[0] == "ptrnet" else unit(item)
+
+
 def main(tier):
     rep = Report(
         PID,
@@ -611,9 +669,9 @@ def main(tier):
     seed = seed_from_env()
     items = items_for(tier, seed)
     D()  # import the library once, before the workers are forked
-    parts = pmap(unit, items)
+    parts = pmap(dispatch, items + [("ptrnet", k, seed) for k in ("ptrnet", "ptrnet_mi0")])
     rep.merge_all(parts)
-    rep.extra["n_values"] = sorted({i[0] for i in items})
+    rep.extra["n_values"] = sorted({i[0] for i in items if i[0] != "ptrnet"})
     rep.extra["shift_max_abs_prob_deviation"] = max([getattr(p, "shift_dev", 0.0) for p in parts] or [0.0])
     rep.extra["alphabet"] = list(ALPHABET)
     return rep.finish()
@@ -625,6 +683,9 @@ def main(tier):
 
 
 def replay(rec_):
+    if rec_.get("kind") == "ptrnet":
+        pt = unit_ptrnet(("ptrnet", rec_["policy"], 0))
+        return bool(pt.violations), "; ".join(v["msg"] for v in pt.violations[:2]) or "pointer-network step distributions are confined to feasible nodes"
     L = torch.tensor([rec_["logits"]], dtype=torch.float32)
     M = torch.tensor([rec_["mask"]], dtype=torch.bool)
     T, k, p, tc = rec_["temperature"], rec_["top_k"], rec_["top_p"], rec_["tanh_clipping"]
